@@ -126,3 +126,883 @@ def regenerate(repo=None):
         "key_filter": {"source": "startswith(%r) or in %r" % (prefix, tuple(names)), "line": kf_line},
         "join_sep": {"source": repr(sep), "line": sep_line},
     }
+
+
+# =======================================================================================
+# Part 2: generator, expected trees, Coq printers, oracle, run
+# =======================================================================================
+import copy as _copy
+import json as _json
+from .common import cfloat, cZ, cstr, cbool, clist, copt, cpair
+
+CLS_MODULE = "c07_classes"
+SIGNATURES = {
+    "A1": [("u", "float")],
+    "A2": [("a", "float"), ("b", "float")],
+    "A3": [("x", "float"), ("y", "float"), ("z", "float")],
+    "B3": [("x", "float"), ("y", "float"), ("z", "float")],
+    "P2": [("c", "float"), ("pos", "tuple2")],
+    "H2": [("inner", "any"), ("s", "float")],
+}
+PLAIN_CTOR = {"Plain": ["p", "q"], "PlainEx": ["p", "q"]}
+BINOPS = {"+": "SumPrior", "*": "MultiplePrior", "/": "DivisionPrior", "//": "FloorDivPrior",
+          "%": "ModPrior", "**": "PowerPrior"}
+UNOPS = {"neg": "NegativePrior", "abs": "AbsolutePrior"}
+# identifying settings of every installed search class: (field, kind)
+SEARCH_FIELDS = {
+    "Emcee": [("nwalkers", "int")],
+    "DynestyStatic": [("nlive", "int"), ("bound", "str"), ("sample", "str"), ("bootstrap", "optint"), ("enlarge", "optfloat"),
+                      ("walks", "int"), ("facc", "float"), ("slices", "int"), ("fmove", "float"), ("max_move", "int")],
+    "DynestyDynamic": [("bound", "str"), ("sample", "str"), ("enlarge", "optfloat"), ("bootstrap", "optint"), ("walks", "int"),
+                       ("facc", "float"), ("slices", "int"), ("fmove", "float"), ("max_move", "int")],
+    "PySwarmsGlobal": [("n_particles", "int"), ("cognitive", "float"), ("social", "float"), ("inertia", "float")],
+    "PySwarmsLocal": [("n_particles", "int"), ("cognitive", "float"), ("social", "float"), ("inertia", "float"),
+                      ("number_of_k_neighbors", "int"), ("minkowski_p_norm", "int")],
+    "BFGS": [],
+    "LBFGS": [],
+    "Drawer": [("total_draws", "int")],
+}
+VARNAMES = ["xx", "yy", "aa", "bb", "pp", "qq", "left", "right", "prior", "other", "lens", "mass_0"]
+
+
+def unhex(s):
+    if isinstance(s, (int, float)):
+        return float(s)
+    return float(s) if s in ("nan", "inf", "-inf") else float.fromhex(s)
+
+
+def hx(x):
+    x = float(x)
+    if x != x:
+        return "nan"
+    if x in (float("inf"), float("-inf")):
+        return "inf" if x > 0 else "-inf"
+    return x.hex()
+
+
+def ref_round(v):
+    """the rounding the property specifies (reference, independent of /repo)"""
+    try:
+        return 1e-8 * round(v / 1e-8)
+    except OverflowError:
+        return v
+
+
+# ---------------------------------------------------------------------------------------
+# generator of fit specifications
+# ---------------------------------------------------------------------------------------
+class Gen:
+    def __init__(self, rng, clean=True, max_depth=2):
+        self.rng = rng
+        self.clean = clean          # no feature with a recorded finding (arith, list-built, fixed model, LogGaussian, Drawer)
+        self.max_depth = max_depth
+        self.pool = []
+        self.nvars = 0
+
+    def value(self, positive=False):
+        rng = self.rng
+        r = rng.random()
+        if r < 0.35:
+            v = rng.randint(-40, 40) / 8.0
+        elif r < 0.6:
+            v = round(rng.uniform(-50, 50), rng.randint(1, 9))
+        elif r < 0.75:
+            v = rng.randint(-10 ** 6, 10 ** 6) * 1e-8 + rng.choice([0.0, 4e-9, -4e-9, 5e-9])
+        elif r < 0.85:
+            v = rng.uniform(-1, 1) * 10 ** rng.randint(-7, 6)
+        elif r < 0.92:
+            v = float(rng.randint(-5, 5))
+        else:
+            v = rng.choice([1e-9, 2.5e-8, 1e10 + 0.5, 123456.789012345, 1e-3, 0.1 + 0.2])
+        if positive:
+            v = abs(v) + rng.choice([1e-3, 0.25, 1.0])
+        return v
+
+    def prior_spec(self):
+        rng = self.rng
+        fams = ["Uniform"] * 9 + ["Gaussian"] * 6 + ["LogUniform"] * 3 + ([] if self.clean else ["LogGaussian"] * 2)
+        fam = rng.choice(fams)
+        if fam in ("Uniform",):
+            lo = self.value()
+            hi = lo + abs(self.value()) + rng.choice([1e-6, 0.5, 1.0])
+            return {"fam": fam, "lo": hx(lo), "hi": hx(hi)}
+        if fam == "LogUniform":
+            lo = self.value(positive=True)
+            hi = lo + abs(self.value()) + rng.choice([1e-6, 0.5, 1.0])
+            return {"fam": fam, "lo": hx(lo), "hi": hx(hi)}
+        mean = self.value()
+        sigma = self.value(positive=True)
+        if rng.random() < 0.5:
+            lo, hi = (float("-inf"), float("inf")) if fam == "Gaussian" else (0.0, float("inf"))
+        else:
+            lo = mean - abs(self.value()) - 1.0
+            hi = mean + abs(self.value()) + 1.0
+            if fam == "LogGaussian":
+                lo = abs(lo)
+                hi = lo + abs(hi) + 1.0
+        return {"fam": fam, "lo": hx(lo), "hi": hx(hi), "mean": hx(mean), "sigma": hx(sigma)}
+
+    def prior(self):
+        if self.pool and self.rng.random() < 0.22:
+            return {"t": "prior", "ref": self.rng.randrange(len(self.pool))}
+        self.pool.append(self.prior_spec())
+        return {"t": "prior", "ref": len(self.pool) - 1}
+
+    def const(self):
+        return {"t": "float", "v": hx(self.value())}
+
+    def var(self):
+        self.nvars += 1
+        if self.rng.random() < 0.7:
+            return self.rng.choice(VARNAMES[:6]) + ("%d" % self.nvars if self.rng.random() < 0.3 else "")
+        return self.rng.choice(VARNAMES)
+
+    def arith(self, depth=0):
+        rng = self.rng
+        if rng.random() < 0.25:
+            a = self.arith(depth + 1) if depth < 1 and rng.random() < 0.3 else self.prior()
+            return {"t": "unop", "op": rng.choice(["neg", "neg", "abs"]), "a": a, "av": self.var()}
+        op = rng.choice(["+", "*", "/", "+", "*", "//", "%", "**"])
+
+        def operand():
+            r = rng.random()
+            if r < 0.3:
+                return {"t": "float", "v": hx(rng.choice([0.5, 2.0, 4.0, 1.5, -2.0, 0.25, 3.0, self.value()]))}
+            if r < 0.45 and depth < 1:
+                return self.arith(depth + 1)
+            return self.prior()
+        l, r = operand(), operand()
+        if l["t"] == "float" and r["t"] == "float":
+            l = self.prior()
+        lv, rv = self.var(), self.var()
+        if rng.random() < 0.08 and l["t"] == "prior":
+            r, rv = _copy.deepcopy(l), lv            # xx * xx : the two names coincide
+        return {"t": "binop", "op": op, "l": l, "r": r, "lv": None if l["t"] == "float" else lv,
+                "rv": None if r["t"] == "float" else rv}
+
+    def scalar(self):
+        r = self.rng.random()
+        if not self.clean and r < 0.18:
+            return self.arith()
+        if r < 0.4:
+            return self.const()
+        return self.prior()
+
+    def extras(self):
+        rng = self.rng
+        out = []
+        if rng.random() < 0.2:
+            for name in rng.sample(["ex", "flag", "note", "nn", "redshift"], rng.randint(1, 2)):
+                k = rng.random()
+                if k < 0.25:
+                    out.append([name, {"t": "int", "v": rng.randint(-3, 40)}])
+                elif k < 0.4:
+                    out.append([name, {"t": "bool", "v": rng.random() < 0.5}])
+                elif k < 0.55:
+                    out.append([name, {"t": "str", "v": rng.choice(["sersic", "a.b", "x", "True", "1.0"])}])
+                elif k < 0.65:
+                    out.append([name, {"t": "none"}])
+                elif k < 0.85:
+                    out.append([name, self.const()])
+                else:
+                    out.append([name, self.prior()])
+        return out
+
+    def model(self, depth=0, fixed=False):
+        rng = self.rng
+        names = ["A1", "A2", "A3", "B3", "A3", "A2", "P2"] + (["H2", "H2"] if depth < self.max_depth else [])
+        cls = rng.choice(names)
+        attrs = []
+        for arg, kind in SIGNATURES[cls]:
+            if kind == "float":
+                attrs.append([arg, self.const() if fixed else self.scalar()])
+            elif kind == "tuple2":
+                ms = [["%s_%d" % (arg, i), self.const() if (fixed or rng.random() < 0.3) else self.prior()] for i in range(2)]
+                attrs.append([arg, {"t": "tuple", "members": ms}])
+            else:
+                r = rng.random()
+                if r < 0.5:
+                    attrs.append([arg, self.model(depth + 1, fixed)])
+                elif r < 0.7:
+                    pcls = rng.choice(["Plain", "PlainEx"])
+                    attrs.append([arg, {"t": "inst", "cls": pcls, "attrs": [["p", self.const()], ["q", self.const()]]}])
+                elif r < 0.8 and not self.clean:
+                    attrs.append([arg, self.model(depth + 1, True)])
+                elif r < 0.9:
+                    attrs.append([arg, {"t": "none"}])
+                else:
+                    attrs.append([arg, self.coll(depth + 1)])
+        e = {"t": "model", "cls": cls, "attrs": attrs, "extras": [] if fixed else self.extras()}
+        return e
+
+    def coll(self, depth=0):
+        rng = self.rng
+        forms = ["dict", "kwargs", "dict"] + ([] if self.clean else ["list", "append", "mixed", "list"])
+        form = rng.choice(forms)
+        n = rng.randint(1, 4 if depth == 0 else 2)
+        keys = rng.sample(["galaxy", "lens", "source", "g0", "g1", "mass", "light", "a", "b", "gaussian_0"], n)
+        items = []
+        for i in range(n):
+            r = rng.random()
+            if r < 0.7 or depth >= self.max_depth:
+                v = self.model(depth + 1)
+            elif r < 0.8 and not self.clean:
+                v = self.model(depth + 1, True)
+            elif r < 0.9:
+                v = self.coll(depth + 1)
+            elif r < 0.95:
+                v = self.prior()
+            else:
+                v = self.const()
+            items.append([keys[i], v])
+        if form in ("list", "append"):
+            items = [[str(i), v] for i, (_, v) in enumerate(items)]
+        elif form == "mixed":
+            cut = rng.randint(0, n - 1)
+            items = items[:cut] + [[str(i), v] for i, (_, v) in enumerate(items[cut:])]
+        return {"t": "coll", "form": form, "items": items}
+
+    def search(self):
+        rng = self.rng
+        names = ["Emcee", "DynestyStatic", "DynestyDynamic", "PySwarmsGlobal", "PySwarmsLocal", "BFGS", "LBFGS"]
+        if not self.clean:
+            names = names + ["Drawer"]
+        cls = rng.choice(names)
+        st = {}
+        for f, kind in SEARCH_FIELDS[cls]:
+            st[f] = self.setting(kind)
+        s = {"cls": cls, "settings": st}
+        if rng.random() < 0.3:
+            s["path_prefix"] = rng.choice(["pp", "a/b"])
+        if rng.random() < 0.3 and cls not in ("BFGS", "LBFGS", "Drawer"):
+            s["number_of_cores"] = rng.choice([1, 2])
+        if rng.random() < 0.3:
+            s["iterations_per_update"] = rng.choice([100, 777])
+        return s
+
+    def setting(self, kind):
+        rng = self.rng
+        if kind == "int":
+            return rng.choice([1, 2, 5, 20, 50, 150, rng.randint(1, 500)])
+        if kind == "float":
+            return rng.choice([0.1, 0.5, 0.9, 1.5, round(rng.uniform(0, 2), rng.randint(1, 6))])
+        if kind == "str":
+            return rng.choice(["multi", "auto", "rwalk", "balls", "single", "unif", "rslice"])
+        if kind == "optint":
+            return rng.choice([None, None, 1, 5, rng.randint(1, 30)])
+        if kind == "optfloat":
+            return rng.choice([None, None, 1.25, 2.0, round(rng.uniform(1, 3), 3)])
+        raise ValueError(kind)
+
+    def fit(self):
+        rng = self.rng
+        self.pool = []
+        model = self.coll(0) if rng.random() < 0.7 else self.model(0)
+        if not has_prior_spec(model):
+            # make sure something is free
+            model = {"t": "coll", "form": "dict", "items": [["base", model], ["free", {"t": "model", "cls": "A1", "attrs": [["u", self.prior()]], "extras": []}]]}
+        tag = rng.choice([None, None, "tag", "dataset_1", "a.b", "x"])
+        return {"search": self.search(), "model": model, "pool": self.pool, "tag": tag}
+
+
+def walk_spec(e, path=()):
+    """yield (path, node) over a model spec"""
+    yield path, e
+    t = e["t"]
+    if t == "binop":
+        yield from walk_spec(e["l"], path + ("l",))
+        yield from walk_spec(e["r"], path + ("r",))
+    elif t == "unop":
+        yield from walk_spec(e["a"], path + ("a",))
+    elif t == "tuple":
+        for i, (k, v) in enumerate(e["members"]):
+            yield from walk_spec(v, path + ("members", i, 1))
+    elif t in ("model", "inst"):
+        for i, (k, v) in enumerate(e["attrs"]):
+            yield from walk_spec(v, path + ("attrs", i, 1))
+        for i, (k, v) in enumerate(e.get("extras", [])):
+            yield from walk_spec(v, path + ("extras", i, 1))
+    elif t == "coll":
+        for i, (k, v) in enumerate(e["items"]):
+            yield from walk_spec(v, path + ("items", i, 1))
+
+
+def get_at(e, path):
+    for p in path:
+        e = e[p]
+    return e
+
+
+def set_at(e, path, new):
+    for p in path[:-1]:
+        e = e[p]
+    e[path[-1]] = new
+
+
+def has_prior_spec(e):
+    return any(n["t"] == "prior" for _, n in walk_spec(e))
+
+
+def is_fixed_model(e):
+    return e["t"] == "model" and not has_prior_spec(e)
+
+
+def item_number(e):
+    if e["form"] in ("list", "append"):
+        return len(e["items"])
+    if e["form"] == "mixed":
+        return sum(1 for k, _ in e["items"] if k.isdigit())
+    return 0
+
+
+def features(spec):
+    """labels computed from the fit specification only"""
+    f = set()
+    m = spec["model"]
+    refs = []
+    depth = 0
+    for path, n in walk_spec(m):
+        t = n["t"]
+        depth = max(depth, sum(1 for p in path if p in ("attrs", "items", "extras")))
+        if t in ("binop", "unop"):
+            f.add("arith")
+        if t == "unop" and n["a"]["t"] == "prior":
+            f.add("modified_bare_prior")
+        if t == "coll" and item_number(n) != 0:
+            f.add("item_number")
+        if is_fixed_model(n):
+            f.add("fixed_model")
+        if t == "prior":
+            refs.append(n["ref"])
+            if spec["pool"][n["ref"]]["fam"] == "LogGaussian":
+                f.add("log_gaussian")
+        if t == "tuple":
+            f.add("tuple")
+        if t == "float":
+            f.add("const")
+        if t == "inst":
+            f.add("plain_instance")
+    if len(refs) != len(set(refs)):
+        f.add("shared")
+    if depth >= 2:
+        f.add("nested")
+    if spec["search"]["cls"] == "Drawer":
+        f.add("drawer")
+    f.add("priors=%d" % min(len(set(refs)), 9))
+    return f
+
+
+def nontrivial(spec):
+    f = features(spec)
+    npri = int([x for x in f if x.startswith("priors=")][0][7:])
+    return npri >= 2 and bool(f & {"shared", "nested", "tuple", "arith", "const"})
+
+
+# ---------------------------------------------------------------------------------------
+# expected composition tree of a specification, as a Coq term of type `node`
+# ---------------------------------------------------------------------------------------
+def left_name(e, rename):
+    if e["l"]["t"] == "float":
+        return "other"
+    v = rename.get(e["lv"], e["lv"])
+    return "left_" if v == "left" else v
+
+
+def right_name(e, rename):
+    if e["r"]["t"] == "float":
+        return "other"
+    v = rename.get(e["rv"], e["rv"])
+    return "right_" if v == "right" else v
+
+
+def unop_name(e, rename):
+    v = rename.get(e["av"], e["av"])
+    return "prior_" if v == "prior" else v
+
+
+def cattrs(items, pool, rename):
+    return clist([cpair(cstr(k), node_term(v, pool, rename)) for k, v in items])
+
+
+def node_term(e, pool, rename=None):
+    rename = rename or {}
+    t = e["t"]
+    if t == "prior":
+        p = pool[e["ref"]]
+        ms = p["fam"] in ("Gaussian", "LogGaussian")
+        return "(NPrior %s F%s %s %s %s %s)" % (
+            cZ(e["ref"]), p["fam"], cfloat(unhex(p["lo"])), cfloat(unhex(p["hi"])),
+            cfloat(unhex(p["mean"])) if ms else cfloat(0.0), cfloat(unhex(p["sigma"])) if ms else cfloat(0.0))
+    if t == "float":
+        return "(NFloat %s)" % cfloat(unhex(e["v"]))
+    if t == "int":
+        return "(NInt %s)" % cZ(e["v"])
+    if t == "bool":
+        return "(NBool %s)" % cbool(e["v"])
+    if t == "str":
+        return "(NStr %s)" % cstr(e["v"])
+    if t == "none":
+        return "NNone"
+    if t == "tuple":
+        return "(NTuple 0%%Z %s)" % cattrs(e["members"], pool, rename)
+    if t == "binop":
+        return "(NBinop 0%%Z %s %s %s %s %s)" % (
+            cstr(BINOPS[e["op"]]), cstr(left_name(e, rename)), cstr(right_name(e, rename)),
+            node_term(e["l"], pool, rename), node_term(e["r"], pool, rename))
+    if t == "unop":
+        return "(NUnop 0%%Z %s %s %s)" % (cstr(UNOPS[e["op"]]), cstr(unop_name(e, rename)), node_term(e["a"], pool, rename))
+    if t == "model":
+        cargs = clist([cstr(a) for a, _ in SIGNATURES[e["cls"]]])
+        return "(NModel 0%%Z %s %s %s %s)" % (cstr(""), cstr(CLS_MODULE + "." + e["cls"]), cargs,
+                                              cattrs(e["attrs"] + e.get("extras", []), pool, rename))
+    if t == "coll":
+        return "(NColl 0%%Z %s %s)" % (cZ(item_number(e)), cattrs(e["items"], pool, rename))
+    if t == "inst":
+        d = dict((k, v) for k, v in e["attrs"])
+        p, q = unhex(d["p"]["v"]), unhex(d["q"]["v"])
+        attrs = e["attrs"] + [["derived", {"t": "float", "v": hx(p + q)}], ["_hidden", {"t": "float", "v": hx(17.0)}]]
+        return "(NInst %s %s %s)" % (cstr(e["cls"]), clist([cstr(a) for a in PLAIN_CTOR[e["cls"]]]), cattrs(attrs, pool, rename))
+    raise ValueError(t)
+
+
+def setting_node(v):
+    if v is None:
+        return "NNone"
+    if isinstance(v, bool):
+        return "(NBool %s)" % cbool(v)
+    if isinstance(v, int):
+        return "(NInt %s)" % cZ(v)
+    if isinstance(v, float):
+        return "(NFloat %s)" % cfloat(v)
+    return "(NStr %s)" % cstr(v)
+
+
+def search_term(s):
+    fields = SEARCH_FIELDS[s["cls"]]
+    return "(NSearch %s %s %s)" % (
+        cstr(s["cls"]), clist([cstr(f) for f, _ in fields]),
+        clist([cpair(cstr(f), setting_node(s["settings"][f])) for f, _ in fields]))
+
+
+# ---------------------------------------------------------------------------------------
+# abstraction of a live object (JSON from the driver) -> Coq term of type `obj`
+# ---------------------------------------------------------------------------------------
+def obj_term(a):
+    t = a[0]
+    if t == "cls":
+        return "(OClass %s)" % cstr(a[1])
+    if t == "exc":
+        return "OExc"
+    if t == "inst":
+        i = a[2]
+        info = "(mkinfo %s %s %s %s)" % (
+            copt(i["idf"], lambda l: clist([cstr(x) for x in l])), cbool(i["is_mo"]),
+            clist([cstr(x) for x in i["ctor"]]), copt(i["excl"], lambda l: clist([cstr(x) for x in l])))
+        return "(OInst %s %s %s)" % (cstr(a[1]), info, clist([cpair(cstr(k), obj_term(v)) for k, v in a[3]]))
+    if t == "dict":
+        return "(ODict %s)" % clist([cpair(cstr(k), obj_term(v)) for k, v in a[1]])
+    if t == "f":
+        return "(OFloat %s)" % cfloat(unhex(a[1]))
+    if t == "s":
+        return "(OStr %s)" % cstr(a[1])
+    if t == "i":
+        return "(OInt %s)" % cZ(a[1])
+    if t == "b":
+        return "(OBool %s)" % cbool(a[1])
+    if t == "seq":
+        return "(OSeq %s)" % clist([obj_term(x) for x in a[1]])
+    if t == "none":
+        return "ONone"
+    raise ValueError(t)
+
+
+def abs_floats(a, acc):
+    t = a[0]
+    if t == "f":
+        acc.add(a[1])
+    elif t == "inst":
+        for _, v in a[3]:
+            abs_floats(v, acc)
+    elif t == "dict":
+        for _, v in a[1]:
+            abs_floats(v, acc)
+    elif t == "seq":
+        for v in a[1]:
+            abs_floats(v, acc)
+    return acc
+
+
+def spec_floats(spec, acc):
+    for p in spec["pool"]:
+        for k in ("lo", "hi", "mean", "sigma"):
+            if k in p:
+                acc.add(p[k])
+    for _, n in walk_spec(spec["model"]):
+        if n["t"] == "float":
+            acc.add(n["v"])
+        if n["t"] == "inst":
+            d = dict((k, v) for k, v in n["attrs"])
+            acc.add(hx(unhex(d["p"]["v"]) + unhex(d["q"]["v"])))
+            acc.add(hx(17.0))
+    for v in spec["search"]["settings"].values():
+        if isinstance(v, float):
+            acc.add(hx(v))
+    return acc
+
+
+def str_table(hexes):
+    """oracle table for Python str(float): entries for every value and its reference rounding,
+    computed directly by the interpreter running the harness"""
+    seen = {}
+    for h in sorted(hexes):
+        v = unhex(h)
+        for x in (v, ref_round(v) if v == v else v):
+            seen[hx(x)] = repr(float(x))
+    return clist([cpair(cfloat(unhex(h)), cstr(s)) for h, s in sorted(seen.items())])
+
+
+def cslist(l):
+    return clist([cstr(x) for x in l])
+
+
+def ascii_ok(x):
+    return all(32 <= ord(c) < 127 for c in x)
+
+
+# ---------------------------------------------------------------------------------------
+# pairs: equal constructions (identifier must agree) and single-field perturbations (must differ)
+# ---------------------------------------------------------------------------------------
+RELOAD_ROUTES = ("reload", "files", "fit")
+
+
+def with_build(spec, **build):
+    s = _copy.deepcopy(spec)
+    b = dict(s.get("build", {}))
+    b.update(build)
+    s["build"] = b
+    return s
+
+
+def bump(v, rng, up=None):
+    """a value differing from v by clearly more than the 1e-8 resolution"""
+    d = max(3e-8, abs(v) * 1e-6) * rng.choice([1, 2, 7, 1000])
+    if up is None:
+        up = rng.random() < 0.5
+    w = v + d if up else v - d
+    assert abs(w - v) > 2.5e-8
+    return w
+
+
+def sites(spec, pred):
+    return [p for p, n in walk_spec(spec["model"]) if pred(n)]
+
+
+def var_names(spec):
+    out = set()
+    for _, n in walk_spec(spec["model"]):
+        if n["t"] == "binop":
+            out |= {n["lv"], n["rv"]} - {None}
+        if n["t"] == "unop":
+            out.add(n["av"])
+    return out
+
+
+def reload_labels(spec, how):
+    f = features(spec)
+    labels = []
+    for feat in ("arith", "item_number", "fixed_model", "log_gaussian", "drawer"):
+        if feat in f:
+            labels.append("reload:" + feat)
+    return labels
+
+
+def fit_eligible(spec):
+    f = features(spec)
+    if f & {"arith", "log_gaussian", "drawer"}:
+        return False
+    for _, n in walk_spec(spec["model"]):
+        if n["t"] in ("str", "none", "bool", "int"):
+            return False
+    return spec["search"]["cls"] in ("LBFGS", "BFGS", "DynestyStatic")
+
+
+def equal_pairs(rng, S, quick):
+    out = []
+    n = len(S["pool"])
+    order = list(range(n))
+    rng.shuffle(order)
+    out.append(("ids", S, with_build(S, order=order, waste=rng.randint(1, 9), labels="z%d" % rng.randint(0, 99)), []))
+    out.append(("deepcopy", S, with_build(S, route="deepcopy"), []))
+    out.append(("reload", S, with_build(S, route="reload"), reload_labels(S, "reload")))
+    if rng.random() < (0.5 if quick else 0.9):
+        out.append(("files", S, with_build(S, route="files"), reload_labels(S, "files")))
+    b = _copy.deepcopy(S)
+    b["search"]["name"] = "renamed"
+    b["search"]["path_prefix"] = rng.choice(["other/prefix", "zz"])
+    b["search"]["iterations_per_update"] = rng.choice([3, 12345])
+    if b["search"]["cls"] not in ("BFGS", "LBFGS", "Drawer"):
+        b["search"]["number_of_cores"] = rng.choice([1, 3])
+    out.append(("nonid", S, b, []))
+    vs = var_names(S)
+    if vs:
+        ren = {v: rng.choice(["renamed_%d" % i, "v%d" % i, "galaxy_%d" % i]) for i, v in enumerate(sorted(vs))}
+        out.append(("rename", S, with_build(S, rename=ren), ["rename:arith"]))
+    # sub-resolution change of a fixed value or prior parameter
+    fl = sites(S, lambda x: x["t"] == "float")
+    if fl:
+        p = rng.choice(fl)
+        v = unhex(get_at(S["model"], p)["v"])
+        if abs(v) < 1e3:
+            c = ref_round(v)
+            a, b = _copy.deepcopy(S), _copy.deepcopy(S)
+            set_at(a["model"], p, {"t": "float", "v": hx(c)})
+            set_at(b["model"], p, {"t": "float", "v": hx(c + rng.choice([2e-10, -2e-10, 1e-9, -1e-9]))})
+            out.append(("near", a, b, []))
+    return [{"kind": "pair", "how": h, "expect": "same", "a": a, "b": b, "labels": l} for h, a, b, l in out]
+
+
+def differ_pairs(rng, S, gen):
+    out = []
+    pool = S["pool"]
+
+    def add(how, b, labels=(), a=None):
+        out.append({"kind": "pair", "how": how, "expect": "differ", "a": a or S, "b": b, "labels": list(labels)})
+
+    # -- priors ---------------------------------------------------------------------
+    if pool:
+        i = rng.randrange(len(pool))
+        p = pool[i]
+        b = _copy.deepcopy(S)
+        q = b["pool"][i]
+        keys = [k for k in ("lo", "hi", "mean", "sigma") if k in q and unhex(q[k]) not in (float("inf"), float("-inf"))]
+        k = rng.choice(keys)
+        v = unhex(q[k])
+        q[k] = hx(bump(v, rng, up={"lo": False, "hi": True, "sigma": True}.get(k)))
+        add("prior_param:" + k, b)
+        b = _copy.deepcopy(S)
+        q = b["pool"][i]
+        if p["fam"] == "Uniform" and unhex(p["lo"]) > 0:
+            q["fam"] = "LogUniform"
+            add("prior_family", b)
+        elif p["fam"] == "LogUniform":
+            q["fam"] = "Uniform"
+            add("prior_family", b)
+        elif p["fam"] == "Gaussian":
+            q["fam"] = "Uniform"
+            if unhex(q["lo"]) == float("-inf"):
+                a = _copy.deepcopy(S)
+                for s_ in (a, b):
+                    s_["pool"][i]["lo"], s_["pool"][i]["hi"] = hx(-3.0), hx(5.0)
+                add("prior_family", b, a=a)
+            else:
+                add("prior_family", b)
+        elif p["fam"] == "Uniform":
+            q.update(fam="Gaussian", mean=hx(0.5), sigma=hx(1.0))
+            add("prior_family", b)
+    # -- sharing pattern ----------------------------------------------------------------
+    refs = [get_at(S["model"], p)["ref"] for p in sites(S, lambda x: x["t"] == "prior")]
+    shared = [r for r in set(refs) if refs.count(r) >= 2]
+    if shared:
+        r = rng.choice(shared)
+        occ = [p for p in sites(S, lambda x: x["t"] == "prior" and x["ref"] == r)]
+        b = _copy.deepcopy(S)
+        b["pool"].append(_copy.deepcopy(pool[r]))
+        set_at(b["model"], rng.choice(occ), {"t": "prior", "ref": len(b["pool"]) - 1})
+        add("sharing_split", b, ["sharing"])
+    elif len(set(refs)) >= 2:
+        i, j = rng.sample(sorted(set(refs)), 2)
+        a = _copy.deepcopy(S)
+        a["pool"][j] = _copy.deepcopy(a["pool"][i])          # two distinct priors with equal parameters
+        b = _copy.deepcopy(a)
+        for p in sites(b, lambda x: x["t"] == "prior" and x["ref"] == j):
+            set_at(b["model"], p, {"t": "prior", "ref": i})     # ... versus one shared prior
+        add("sharing_merge", b, ["sharing"], a=a)
+    # -- fixed values -------------------------------------------------------------------------
+    fl = sites(S, lambda x: x["t"] == "float")
+    if fl:
+        p = rng.choice(fl)
+        parent = get_at(S["model"], p[:-3]) if len(p) >= 3 else None
+        if not (parent is not None and parent["t"] == "inst" and parent["cls"] == "PlainEx" and get_at(S["model"], p[:-1])[0] == "q"):
+            b = _copy.deepcopy(S)
+            set_at(b["model"], p, {"t": "float", "v": hx(bump(unhex(get_at(S["model"], p)["v"]), rng))})
+            add("const", b)
+        p = rng.choice(fl)
+        parent = get_at(S["model"], p[:-3]) if len(p) >= 3 else None
+        if parent is not None and parent["t"] in ("model", "coll", "tuple") and not is_fixed_model(parent):
+            b = _copy.deepcopy(S)
+            b["pool"].append(gen.prior_spec())
+            set_at(b["model"], p, {"t": "prior", "ref": len(b["pool"]) - 1})
+            add("const_to_prior", b)
+    for kind in ("int", "bool", "str"):
+        ss = sites(S, lambda x: x["t"] == kind)
+        if ss:
+            p = rng.choice(ss)
+            n = get_at(S["model"], p)
+            b = _copy.deepcopy(S)
+            nv = {"int": lambda v: v + rng.choice([1, -1, 10]), "bool": lambda v: not v, "str": lambda v: v + "x"}[kind](n["v"])
+            set_at(b["model"], p, {"t": kind, "v": nv})
+            add("const_" + kind, b)
+    # -- classes and structure ----------------------------------------------------------------
+    ms = sites(S, lambda x: x["t"] == "model" and x["cls"] in ("A3", "B3"))
+    if ms:
+        p = rng.choice(ms)
+        b = _copy.deepcopy(S)
+        n = get_at(b["model"], p)
+        n["cls"] = "B3" if n["cls"] == "A3" else "A3"
+        add("class", b)
+    ms = sites(S, lambda x: x["t"] == "model" and not is_fixed_model(x))
+    if ms:
+        p = rng.choice(ms)
+        b = _copy.deepcopy(S)
+        n = get_at(b["model"], p)
+        taken = {k for k, _ in n["attrs"] + n.get("extras", [])}
+        name = rng.choice([x for x in ("added", "more", "zeta") if x not in taken])
+        n.setdefault("extras", []).append([name, gen.const() if rng.random() < 0.5 else {"t": "int", "v": 1}])
+        add("add_attribute", b)
+    cs = sites(S, lambda x: x["t"] == "coll" and x["form"] in ("dict", "kwargs"))
+    if cs:
+        p = rng.choice(cs)
+        b = _copy.deepcopy(S)
+        n = get_at(b["model"], p) if p else b["model"]
+        i = rng.randrange(len(n["items"]))
+        n["items"][i][0] = n["items"][i][0] + "_renamed"
+        add("rename_key", b)
+        b = _copy.deepcopy(S)
+        n = get_at(b["model"], p) if p else b["model"]
+        saved = gen.pool
+        gen.pool = b["pool"]
+        n["items"].append(["appended_item", gen.model(2)])
+        gen.pool = saved
+        add("add_item", b)
+    bs = sites(S, lambda x: x["t"] == "binop")
+    if bs:
+        p = rng.choice(bs)
+        b = _copy.deepcopy(S)
+        n = get_at(b["model"], p)
+        n["op"] = rng.choice([o for o in BINOPS if o != n["op"]])
+        add("arith_op", b)
+        lit = [s_ for s_ in ("l", "r") if get_at(S["model"], p)[s_]["t"] == "float"]
+        if lit:
+            b = _copy.deepcopy(S)
+            n = get_at(b["model"], p)
+            n[lit[0]]["v"] = hx(bump(unhex(n[lit[0]]["v"]), rng))
+            add("arith_const", b)
+    us = sites(S, lambda x: x["t"] == "unop")
+    if us:
+        p = rng.choice(us)
+        b = _copy.deepcopy(S)
+        n = get_at(b["model"], p)
+        n["op"] = "abs" if n["op"] == "neg" else "neg"
+        add("arith_op", b)
+    # -- search and tag -------------------------------------------------------------------------
+    s = S["search"]
+    for f, kind in SEARCH_FIELDS[s["cls"]]:
+        b = _copy.deepcopy(S)
+        old = s["settings"][f]
+        for _ in range(20):
+            new = gen.setting(kind)
+            if new != old and not (isinstance(new, float) and isinstance(old, float) and abs(new - old) < 3e-8):
+                break
+        else:
+            continue
+        b["search"]["settings"][f] = new
+        add("search_setting:" + f, b)
+    b = _copy.deepcopy(S)
+    other = rng.choice([c for c in SEARCH_FIELDS if c != s["cls"] and c != "Drawer"])
+    if {s["cls"], other} <= {"BFGS", "LBFGS"} or rng.random() < 0.5:
+        b["search"] = {"cls": other, "settings": {f: (s["settings"][f] if f in s["settings"] and
+                                                    dict(SEARCH_FIELDS[s["cls"]]).get(f) == k else gen.setting(k))
+                                                  for f, k in SEARCH_FIELDS[other]}}
+        add("search_class", b)
+    b = _copy.deepcopy(S)
+    b["tag"] = {None: "added_tag"}.get(S["tag"], rng.choice([None, S["tag"] + "2"]) if S["tag"] else "t")
+    add("tag", b)
+    return out
+
+
+def special_pairs(rng, gen):
+    """constructions for the two structural collisions of the flat token stream"""
+    out = []
+    gen.pool = []
+    m1, m2 = gen.model(2), gen.model(2)
+    pool = gen.pool
+    srch = gen.search()
+    a = {"search": srch, "pool": pool, "tag": None,
+         "model": {"t": "coll", "form": "dict", "items": [["group", {"t": "coll", "form": "dict", "items": [["m1", m1]]}], ["m2", m2]]}}
+    b = {"search": srch, "pool": pool, "tag": None,
+         "model": {"t": "coll", "form": "dict", "items": [["group", {"t": "coll", "form": "dict", "items": [["m1", m1], ["m2", m2]]}]]}}
+    out.append({"kind": "pair", "how": "regroup", "expect": "differ", "a": a, "b": b, "labels": ["regroup"]})
+    gen.pool = []
+    base = {"t": "model", "cls": "A1", "attrs": [["u", gen.prior()]], "extras": [["note", {"t": "str", "v": "p.q"}]]}
+    other = _copy.deepcopy(base)
+    other["extras"] = [["note", {"t": "str", "v": "p"}], ["q", {"t": "none"}]]
+    srch = gen.search()
+    out.append({"kind": "pair", "how": "dot_join", "expect": "differ", "labels": ["dot_join"],
+                "a": {"search": srch, "pool": gen.pool, "tag": None, "model": base},
+                "b": {"search": srch, "pool": gen.pool, "tag": None, "model": other}})
+    return out
+
+
+# ---------------------------------------------------------------------------------------
+# generic values for the walk
+# ---------------------------------------------------------------------------------------
+def gen_value(rng, depth=0):
+    r = rng.random()
+    if depth >= 3:
+        r = r * 0.5
+    if r < 0.14:
+        v = rng.choice([0.0, -0.0, 1.0, 0.1 + 0.2, 1e-9, 5e-9, 1.5e-8, 2.5e-8, 1e22, 1e300, -1e300, float("inf"), float("-inf"),
+                        rng.uniform(-10, 10), rng.randint(-10 ** 7, 10 ** 7) * 1e-8 + 5e-9, rng.uniform(-1, 1) * 10 ** rng.randint(-12, 15)])
+        return ["f", hx(v)]
+    if r < 0.16:
+        return ["f", "nan"] if rng.random() < 0.3 else ["f", hx(rng.uniform(0, 1))]
+    if r < 0.24:
+        return ["i", rng.choice([0, 1, -1, 7, 10 ** 12, -10 ** 20, rng.randint(-1000, 1000)])]
+    if r < 0.29:
+        return ["b", rng.random() < 0.5]
+    if r < 0.37:
+        return ["s", rng.choice(["", "a", "x.y", "_private", "id", "paths", "1.0", "True", "lower_limit", "with space", "Model"])]
+    if r < 0.41:
+        return ["none"]
+    if r < 0.43:
+        return ["exc"] if rng.random() < 0.25 else ["none"]
+    if r < 0.46:
+        return ["cls", rng.choice(["A2", "Plain", "B3"])]
+    if r < 0.58:
+        keys = rng.sample(["a", "b", "_hidden", "id", "paths", "_", "k.l", "idx", "path", "Id", "", "zz"], rng.randint(0, 5))
+        return ["dict", [[k, gen_value(rng, depth + 1)] for k in keys]]
+    if r < 0.62:
+        keys = rng.sample(range(-3, 30), rng.randint(1, 3))
+        return ["idict", [[str(k), gen_value(rng, depth + 1)] for k in keys]]
+    if r < 0.72:
+        return [rng.choice(["seq", "tup"]), [gen_value(rng, depth + 1) for _ in range(rng.randint(0, 4))]]
+    if r < 0.82:
+        cls = rng.choice(["Plain", "PlainEx", "Plain"])
+        kw = [[k, ["f", hx(rng.randint(-8, 8) / 4.0)]] for k in rng.sample(["p", "q"], rng.randint(0, 2))]
+        extra = [[k, gen_value(rng, depth + 1)] for k in rng.sample(["zz", "_u", "id", "p", "other"], rng.randint(0, 2))]
+        return ["obj", cls, kw, extra]
+    if r < 0.88:
+        kw = []
+        if rng.random() < 0.5:
+            kw.append(["m", gen_value(rng, depth + 1)])
+        if rng.random() < 0.5:
+            kw.append(["n", gen_value(rng, depth + 1)])
+        return ["obj", "Fielded", kw, []]
+    if r < 0.90:
+        return ["obj", "Broken", [], []]
+    if r < 0.96:
+        g = Gen(rng, clean=False)
+        return ["prior", g.prior_spec()]
+    return ["gridsearch", rng.randint(1, 9), rng.randint(1, 4)]
+
+
+def value_has(v, tag):
+    if v[0] == tag:
+        return True
+    if v[0] in ("seq", "tup"):
+        return any(value_has(x, tag) for x in v[1])
+    if v[0] in ("dict", "idict"):
+        return any(value_has(x, tag) for _, x in v[1])
+    if v[0] == "obj":
+        return any(value_has(x, tag) for _, x in v[2] + v[3])
+    return False
